@@ -149,6 +149,8 @@ pub enum ElOp {
     Snapshot,
     GetAttr(String),
     HasAttr(String),
+    /// drop every end tag handler registered on the element so far
+    ClearEndTag,
 }
 
 #[derive(Clone, Debug, Serialize, Deserialize, PartialEq, Eq, Hash)]
@@ -271,7 +273,7 @@ impl HandlerSpec {
     pub fn is_observer(&self) -> bool {
         match self {
             HandlerSpec::Element { ops, .. } => ops.iter().all(|o| match o {
-                ElOp::Snapshot | ElOp::GetAttr(_) | ElOp::HasAttr(_) => true,
+                ElOp::Snapshot | ElOp::GetAttr(_) | ElOp::HasAttr(_) | ElOp::ClearEndTag => true,
                 ElOp::OnEndTag(e) => e.is_empty(),
                 _ => false,
             }),
@@ -348,6 +350,10 @@ pub struct Scenario {
     /// recorded unit has no attributes): lazily materialised state is first touched by the script
     #[serde(default, skip_serializing_if = "is_false")]
     pub blind: bool,
+    /// after its script every element/text/comment/doctype handler reads the unit's user data,
+    /// stores its own registration number there, reads it back and reads `removed()`
+    #[serde(default, skip_serializing_if = "is_false")]
+    pub probe: bool,
 }
 
 impl Scenario {
@@ -372,6 +378,7 @@ impl Scenario {
             misuse_calls: 0,
             send: false,
             blind: false,
+            probe: false,
         }
     }
 
